@@ -298,6 +298,13 @@ func (c *c12Runner) runRestoreConcurrent(backend string, workers int, seed uint6
 		r := hlib.FromState(seed + uint64(w)*7919)
 		go func() {
 			defer wg.Done()
+			defer func() {
+				if rec := recover(); rec != nil {
+					mu.Lock()
+					bad = append(bad, fmt.Sprintf("PANIC in RestoreChunk: %v", rec))
+					mu.Unlock()
+				}
+			}()
 			n := len(cd.chunks)
 			perm := make([]int, n)
 			for i := range perm {
